@@ -71,6 +71,14 @@ func (e Event) Note() uint8 {
 	return e[1]
 }
 
+// Velocity - make sure event type is NoteOn/NoteOff before call
+func (e Event) Velocity() uint8 {
+	if len(e) < 3 {
+		return 0
+	}
+	return e[2]
+}
+
 func (e Event) Channel() uint8 {
 	if len(e) == 0 {
 		return 0
